@@ -1,6 +1,7 @@
 //! Case recording, flattening of cgmath values, PRNG and generators.
 
 use crate::bigrat::BigRat;
+use crate::sym::{self, Node};
 use crate::xq::{self, OracleLog, Val, Xq};
 use cgmath::*;
 use std::collections::HashSet;
@@ -35,6 +36,7 @@ impl Rng {
 #[derive(Clone, Debug, PartialEq)]
 pub enum Out {
     Q(Vec<BigRat>),
+    Sym(Vec<u32>), // symbolic mode: node ids of the flattened result
     None,
     Panic(String),
     Bool(bool),
@@ -176,6 +178,9 @@ pub trait ToOut {
 fn flat_out<T: Flat>(t: &T) -> Out {
     let mut v = vec![];
     t.flat(&mut v);
+    if sym::on() {
+        return Out::Sym(v.iter().map(|x| x.node_id()).collect());
+    }
     let mut r = vec![];
     for x in v {
         match x.val() {
@@ -253,7 +258,26 @@ pub struct Ctx {
     pub pred_evals: usize,
     pub pred_fails: Vec<PredFail>,
     pub only: Option<String>,
+    /// symbolic mode: instead of recording concrete cases, enumerate the paths of each function once
+    pub sym: bool,
+    pub sym_seen: HashSet<(String, usize)>,
+    pub sym_fns: Vec<SymFn>,
 }
+
+/// one path of the symbolic execution of a function
+pub struct SymPath {
+    pub nodes: Vec<Node>,
+    pub conds: Vec<sym::Cond>,
+    pub out: Out,
+}
+pub struct SymFn {
+    pub f: String,
+    pub arity: usize,
+    pub paths: Vec<SymPath>,
+    /// why the function could not be executed symbolically (None = all paths enumerated)
+    pub unsupported: Option<String>,
+}
+pub const SYM_MAX_PATHS: usize = 600;
 
 fn panic_msg(e: Box<dyn std::any::Any + Send>) -> String {
     if let Some(s) = e.downcast_ref::<&str>() {
@@ -271,7 +295,7 @@ pub fn rats(xs: &[Xq]) -> Vec<BigRat> {
 
 impl Ctx {
     pub fn new(seed: u64, scale: usize) -> Ctx {
-        Ctx { rng: Rng(seed), seed, scale, cases: vec![], pred_evals: 0, pred_fails: vec![], only: None }
+        Ctx { rng: Rng(seed), seed, scale, cases: vec![], pred_evals: 0, pred_fails: vec![], only: None, sym: false, sym_seen: HashSet::new(), sym_fns: vec![] }
     }
 
     /// Run `body` on freshly allocated inputs and record the case.
@@ -281,6 +305,13 @@ impl Ctx {
             if o != f {
                 return;
             }
+        }
+        if self.sym {
+            if self.sym_seen.insert((f.to_string(), inp.len())) {
+                let sf = sym_explore(f, inp.len(), setup, body);
+                self.sym_fns.push(sf);
+            }
+            return;
         }
         xq::reset();
         setup();
@@ -298,6 +329,9 @@ impl Ctx {
     /// `body` returns Ok(()) when the clause holds, Err(detail) when it is violated;
     /// a panic inside counts as a violation unless `expect_panic`.
     pub fn pred(&mut self, name: &str, inp: &[BigRat], setup: &dyn Fn(), body: &dyn Fn(&[Xq]) -> Result<(), String>) {
+        if self.sym {
+            return;
+        }
         xq::reset();
         setup();
         let xs: Vec<Xq> = inp.iter().map(|r| Xq::new(r.clone())).collect();
@@ -396,6 +430,49 @@ impl Ctx {
     }
 }
 
+/// depth-first enumeration of the paths of `body` run on symbolic inputs (see sym.rs)
+fn sym_explore<R: ToOut>(f: &str, arity: usize, setup: &dyn Fn(), body: &dyn Fn(&[Xq]) -> R) -> SymFn {
+    let mut paths = vec![];
+    let mut script: Vec<bool> = vec![];
+    let mut unsupported = None;
+    loop {
+        xq::reset();
+        setup();
+        sym::begin(&script);
+        let xs: Vec<Xq> = (0..arity).map(|i| Xq::input(i as u32)).collect();
+        let res = catch_unwind(AssertUnwindSafe(|| body(&xs).to_out()));
+        let st = sym::end();
+        let out = match res {
+            Ok(o) => o,
+            Err(e) => {
+                let m = panic_msg(e);
+                if m.starts_with(sym::UNSUPPORTED) || m.contains("unmodelled") {
+                    unsupported = Some(m);
+                    break;
+                }
+                Out::Panic(m)
+            }
+        };
+        let mut trace = st.trace.clone();
+        paths.push(SymPath { nodes: st.nodes, conds: st.conds, out });
+        if paths.len() > SYM_MAX_PATHS {
+            unsupported = Some(format!("more than {} paths", SYM_MAX_PATHS));
+            break;
+        }
+        // next script: drop trailing `true`s (both outcomes explored), flip the last `false`
+        while let Some(true) = trace.last() {
+            trace.pop();
+        }
+        if trace.is_empty() {
+            break;
+        }
+        let n = trace.len();
+        trace[n - 1] = true;
+        script = trace;
+    }
+    SymFn { f: f.to_string(), arity, paths, unsupported }
+}
+
 // ---------- building cgmath values from flattened inputs ----------
 pub fn v1(x: &[Xq]) -> Vector1<Xq> {
     Vector1::new(x[0])
@@ -473,6 +550,32 @@ fn jout(o: &Out) -> String {
         Out::None => "{\"t\":\"None\"}".to_string(),
         Out::Panic(m) => format!("{{\"t\":\"Panic\",\"msg\":{}}}", js(m)),
         Out::Bool(b) => format!("{{\"t\":\"Bool\",\"v\":{}}}", b),
+        Out::Sym(l) => format!("{{\"t\":\"Q\",\"v\":[{}]}}", l.iter().map(|i| i.to_string()).collect::<Vec<_>>().join(",")),
+    }
+}
+
+fn jnode(n: &Node) -> String {
+    match n {
+        Node::In(i) => format!("[\"in\",{}]", i),
+        Node::Const(r) => format!("[\"const\",{}]", jq(r)),
+        Node::Eps => "[\"eps\"]".to_string(),
+        Node::MaxRel => "[\"maxrel\"]".to_string(),
+        Node::Un(op, a) => format!("[\"{}\",{}]", op, a),
+        Node::Bin(op, a, b) => format!("[\"{}\",{},{}]", op, a, b),
+    }
+}
+
+pub fn write_sym(path: &str, fns: &[SymFn]) {
+    let mut f = std::io::BufWriter::new(std::fs::File::create(path).expect("create sym file"));
+    for sf in fns {
+        let paths: Vec<String> = sf.paths.iter().map(|p| {
+            let nodes = p.nodes.iter().map(jnode).collect::<Vec<_>>().join(",");
+            let conds = p.conds.iter().map(|c| format!("{{\"op\":\"{}\",\"args\":[{}],\"ulps\":{},\"v\":{}}}", c.op,
+                c.args.iter().map(|i| i.to_string()).collect::<Vec<_>>().join(","), c.ulps, c.outcome)).collect::<Vec<_>>().join(",");
+            format!("{{\"nodes\":[{}],\"conds\":[{}],\"out\":{}}}", nodes, conds, jout(&p.out))
+        }).collect();
+        let uns = match &sf.unsupported { Some(m) => js(m), None => "null".to_string() };
+        writeln!(f, "{{\"f\":{},\"arity\":{},\"unsupported\":{},\"paths\":[{}]}}", js(&sf.f), sf.arity, uns, paths.join(",")).unwrap();
     }
 }
 
